@@ -2,6 +2,16 @@ NOTES = ("All checks: ./check <ID> --tier quick|thorough, VERIF_SEED respected, 
          "fix: commits in /repo are listed in known_findings.json as fixed entries.")
 NOT_APPLICABLE = {}
 CHECKS = {
+ "C09": {
+  "technique": "Hypothesis property-based testing with exhaustive enumeration of all k! approval orders per generated program (metamorphic: any order == all-at-once, compared as syntax trees)",
+  "text": "For every generated program with k >= 2 pending categories every permutation of single-category sessions and the combined session are run from pristine copies and the final syntax trees compared. Exploration over programs, exhaustive over orders.",
+  "note": "recording bodies (observations independent of comparison answers) as the property's domain requires; in-process driver; positional constructor arguments excluded (F14)",
+ },
+ "C11": {
+  "technique": "exhaustive small-scope enumeration and Hypothesis testing of the alignment functions against an independent LCS model; Hypothesis end-to-end testing of text preservation with python's ast as segment oracle",
+  "text": "align/add_x are checked on all sequence pairs over 3 symbols up to length 4/5 and on random longer pairs for script validity, optimality (= LCS) and prefix/suffix anchoring; fix-only sessions over noisily rendered containers check recursively that unchanged sub-expressions keep their source text, keyed entries are matched by key and at least LCS-many element texts survive. Exploration (exhaustive for the enumerated sub-space).",
+  "note": "element boundaries are taken from python's ast; positional constructor arguments excluded (F14); duplicate keys in displays excluded",
+ },
  "C05": {
   "technique": "Hypothesis property-based testing against an independent reference model of the category semantics (written from the documentation), plus a two-session metamorphic arm on tool-written text",
   "text": "Per site the reported categories (create/fix/trim) and the value after the run are compared with a ~100 line reference model written from docs/categories.md for every operation, previous value (noisy text or none), observation sequence (loops, shared module-level sites) and approved subset F; unapproved categories must leave the value untouched (update-only runs never change a value). Exploration.",
